@@ -78,3 +78,26 @@ func H_C18_op() {
 	vAssert("C18.operand.u", unchanged(u, us))
 	vReach("end")
 }
+
+// H_C18_sqrtreal: the real Sqrt - float64 seed and Newton iteration of
+// sqrtInverse included - in confinement mode. The operand is concrete (the
+// iteration starts from math.Sqrt of a float64, which the executor only
+// interprets concretely); what is explored symbolically is every answer of the
+// pool. Every store of the whole iteration is checked against the ownership
+// tags: the shared constants oneHalf and three and the operand are read-only.
+func H_C18_sqrtreal() {
+	p := vCfg("p")
+	x := new(Decimal).SetPrec(uint(vCfgOr("px", 19))).SetUint64(uint64(vCfg("v")))
+	x.SetMantExp(x, vCfgOr("e", 0))
+	z := new(Decimal).SetPrec(uint(p))
+	xs, hs, ts := snap(x), snap(oneHalf), snap(three)
+	vConfineBegin(z, []*Decimal{x, oneHalf, three})
+	k := vCatch(func() { z.Sqrt(x) })
+	vConfineEnd(z)
+	vAssert("C04.nopanic", k == 0)
+	vAssert("C18.operand.x", unchanged(x, xs))
+	vAssert("C18.global.oneHalf", unchanged(oneHalf, hs))
+	vAssert("C18.global.three", unchanged(three, ts))
+	vAssert("C18.sqrt.attrs", vAnd(z.Prec() == uint(p), z.form == finite))
+	vReach("end")
+}
